@@ -202,7 +202,13 @@ def locCoordCtorOk (c : Val) (maxDeg : Nat) : Bool :=
 
 def padTo (n : Nat) (b : Bytes) : Bytes := b ++ List.replicate (n - b.length) 0
 
-def stripTrailingZeros (b : Bytes) : Bytes := (b.reverse.dropWhile (· == 0)).reverse
+/-- `APLItem.to_wire`: the address without its trailing zero octets -/
+def stripTrailingZeros : Bytes → Bytes
+  | [] => []
+  | x :: xs =>
+    match stripTrailingZeros xs with
+    | [] => if x = 0 then [] else [x]
+    | y :: ys => x :: y :: ys
 
 def aplItemSchema : Schema :=
   .bind (seq [u16, u8, u8]) (fun h => h.snd.snd.toNat % 128) 128 (fun i => .fixed i)
@@ -284,13 +290,23 @@ def stripNul (b : Bytes) : Bytes :=
   | 0 :: restRev => restRev.reverse
   | _ => b
 
-def optItemPost (it : Val) : Val :=
+/-- the intended reading of "text MAY be null-terminated" (repair proposed for the recorded defect
+`C02/fixpoint/EDE-text-ends-with-NUL`): every trailing NUL is dropped, so the decoded text never ends in NUL -/
+def stripNulAll (b : Bytes) : Bytes := (b.reverse.dropWhile (· == 0)).reverse
+
+/-- `allNul = false`: the code as shipped (one trailing NUL dropped); `true`: the intended variant -/
+def optItemPostWith (allNul : Bool) (it : Val) : Val :=
   let t := it.fst.toNat
   if t = 8 then .pair it.fst (.pair it.snd.fst (.bytes (ecsMask it.snd.fst.snd.fst.toNat it.snd.snd.toBytes)))
-  else if t = 15 then .pair it.fst (.pair it.snd.fst (.bytes (stripNul it.snd.snd.toBytes)))
+  else if t = 15 then
+    .pair it.fst (.pair it.snd.fst (.bytes ((if allNul then stripNulAll else stripNul) it.snd.snd.toBytes)))
   else it
 
+def optItemPost (it : Val) : Val := optItemPostWith false it
+
 def optPost (v : Val) : Option Val := some (.list (v.toList.map optItemPost))
+
+def optPostIntended (v : Val) : Option Val := some (.list (v.toList.map (optItemPostWith true)))
 
 /-! ## SVCB / HTTPS parameters -/
 
@@ -333,18 +349,20 @@ def dedupLast : List Val → List Val
 
 def hasKey (ps : List Val) (k : Nat) : Bool := ps.any fun p => p.fst.toNat == k
 
-def svcbPost (v : Val) : Option Val :=
-  let prio := v.fst.toNat
-  let raw := v.snd.snd.toList
+/-- `SVCBBase.__init__`: every key listed as mandatory is present; no-default-alpn (2) needs alpn (1) -/
+def svcbParamsOk (ps : List Val) : Bool :=
+  (match ps.find? (fun p => p.fst.toNat == 0) with
+    | some p => p.snd.toList.all fun k => hasKey ps k.toNat
+    | none => true) && !(hasKey ps 2 && !hasKey ps 1)
+
+/-- the parameter dictionary built by `SVCBBase.from_wire_parser` from the parameters as they came:
+AliasMode (priority 0) has none, keys must not descend, a repeated key keeps the last value -/
+def svcbPostCore (prio : Nat) (raw : List Val) : Option (List Val) :=
   if prio = 0 ∧ !raw.isEmpty then none
   else if !nonDecFrom 0 raw then none
-  else
-    let ps := dedupLast raw
-    let mandOk := match ps.find? (fun p => p.fst.toNat == 0) with
-      | some p => p.snd.toList.all fun k => hasKey ps k.toNat
-      | none => true
-    if !mandOk then none
-    else if hasKey ps 2 ∧ !hasKey ps 1 then none
-    else some (.pair v.fst (.pair v.snd.fst (.list ps)))
+  else if svcbParamsOk (dedupLast raw) then some (dedupLast raw) else none
+
+def svcbPost (v : Val) : Option Val :=
+  (svcbPostCore v.fst.toNat v.snd.snd.toList).map fun ps => .pair v.fst (.pair v.snd.fst (.list ps))
 
 end Model
